@@ -148,6 +148,9 @@ func forbiddenVersions() []string {
 			out = append(out, m+s)
 		}
 	}
+	// spellings a numeric parser would read as a value in [1,2) although the
+	// major component - the text before the first dot - is not "1"
+	out = append(out, "0.1e1", "0.15e1", ".1e1", "0.0125E+2", "0.1E1", "00.1e1", "0.1e+1", "2.5e-1")
 	return out
 }
 
